@@ -44,6 +44,11 @@ func GenerateWide(t *rapid.T, w WideOptions) Query {
 		return 1 + g.pick("wwheredepth", 2)
 	}
 	updating := w.Updates && g.chance("wupdating", 2, 5)
+	if updating && g.chance("wupdnopaths", 3, 4) {
+		// path variables next to updating clauses are a listed finding (C03-path-with-update): keep the
+		// combination, but rare, so that most updating queries reach the oracle
+		g.o.AllowPaths = false
+	}
 	leadingCreate := updating && g.chance("wleadingcreate", 1, 6)
 	if leadingCreate {
 		// CREATE as the first clause of the query
@@ -128,7 +133,7 @@ func (g *gen) shortestPathMatch(depth int) string {
 	}
 	endpoint := func(label string) (string, string) {
 		nodes := g.varsOf(TNode)
-		if len(nodes) > 0 && g.chance(label+"bound", 1, 2) {
+		if len(nodes) > 0 && g.chance(label+"bound", 1, 5) {
 			g.feat("shortest-path-bound-endpoint")
 			n := nodes[g.pick(label+"boundi", len(nodes))].Name
 			return "(" + n + ")", n
@@ -199,16 +204,16 @@ func (g *gen) shortestPathMatch(depth int) string {
 
 // propValueExpr is a right-hand side for SET n.p = …
 func (g *gen) propValueExpr() string {
-	switch g.pick("wsetval", 6) {
-	case 0:
+	switch g.pick("wsetval", 10) {
+	case 0, 1, 2:
 		return g.strLit()
-	case 1:
+	case 3, 4:
 		return g.intLit()
-	case 2:
+	case 5, 6:
 		return g.boolLit()
-	case 3:
+	case 7:
 		return g.intExpr(1)
-	case 4:
+	case 8:
 		return g.strExpr(1)
 	default:
 		return g.floatLit()
